@@ -75,13 +75,33 @@ def expected(ranges, r):
     return out or [(0.0, 0.0, 0.0)]
 
 
-def build_api(order, direct):
+def plain_quad(q):
+    """the same quadratic as a plain Python callable without .deriv: its derivatives come from the documented numerical fallback"""
+    c0, c1, c2 = quad(q)['params']
+
+    def f(r):
+        return c0 + c1 * r + c2 * r * r
+    return f
+
+
+def build_api(order, direct, default=None, setter=False, numeric=False):
     from atsim.potentials import create_Multi_Range_Potential_Form, Multi_Range_Defn
     from atsim.potentials._multi_range_potential_form import Multi_Range_Potential_Form_Deriv2
-    defs = [Multi_Range_Defn(m, (float('-inf') if s is None else s), R.api_item(quad(q))) for m, s, q in order]
+
+    def callable_for(q):
+        return plain_quad(q) if (numeric and q % 2) else R.api_item(quad(q))
+    defs = [Multi_Range_Defn(m, (float('-inf') if s is None else s), callable_for(q)) for m, s, q in order]
+    kw = {} if default is None else {'default_value': default}
+    if setter:
+        # built with other ranges first, then re-assigned through the public range_defns property
+        other = [Multi_Range_Defn('>', 0.25, R.api_item(quad(7))), Multi_Range_Defn('>=', 2.75, R.api_item(quad(6))), Multi_Range_Defn('>', 5.0, R.api_item(quad(5)))]
+        obj = Multi_Range_Potential_Form_Deriv2(*other, **kw)
+        obj(1.0), obj.deriv(3.0)
+        obj.range_defns = defs
+        return obj
     if direct:
-        return Multi_Range_Potential_Form_Deriv2(*defs)
-    return create_Multi_Range_Potential_Form(*defs)
+        return Multi_Range_Potential_Form_Deriv2(*defs, **kw)
+    return create_Multi_Range_Potential_Form(*defs, **kw)
 
 
 def build_cfg(order, unmark_first):
@@ -112,7 +132,9 @@ def run_case(case):
     perms = list(itertools.permutations(ranges))
     sweeps = [rs, rs[::-1], rs[::2] + rs[1::2][::-1]]
     for order in perms:
-        objs = [('class', build_api(order, True)), ('factory', build_api(order, False))]
+        objs = [('class', build_api(order, True)), ('factory', build_api(order, False)),
+                ('class default_value=25', build_api(order, True, default=25.0)), ('range_defns setter', build_api(order, True, setter=True)),
+                ('factory with numerical ranges', build_api(order, False, numeric=True))]
         if not case['api_inf']:
             objs.append(('potable', build_cfg(order, False)))
             if order[0][0] == '>' and order[0][1] == 0.0:
@@ -121,8 +143,25 @@ def run_case(case):
             for sw, sweep in enumerate(sweeps):
                 for r in sweep:
                     evals += 1
+                    if 'numerical' in how and not hasattr(f, 'deriv'):
+                        # no range offers an analytic derivative: the composite documentedly offers none either
+                        if any(q % 2 == 0 for _m, _s, q in order):
+                            V('deriv-not-offered', '%s: a range offers .deriv but the multi-range potential does not' % how)
+                            break
+                        if not any(close(f(r), e3[0]) for e3 in exp[r]):
+                            V('wrong-range', '%s, ranges listed %r, r=%r: value %r, allowed %r' % (how, [(m, s) for m, s, _q in order], r, f(r), exp[r]))
+                            break
+                        continue
                     got = (f(r), f.deriv(r), f.deriv2(r))
-                    ok = any(all(close(g, e) for g, e in zip(got, e3)) for e3 in exp[r])
+                    want = exp[r]
+                    if how.startswith('class default') and not acceptable(ranges, r):
+                        want = [(25.0, 0.0, 0.0)]
+                    if 'numerical' in how:
+                        # documented fallback h = 1e-6: first derivative to ~1e-9, second (difference of differences) to ~1e-3
+                        ok = any(close(got[0], e3[0]) and abs(got[1] - e3[1]) <= 1e-6 * (1 + abs(e3[1])) and abs(got[2] - e3[2]) <= 5e-2 * (1 + abs(e3[2]) + abs(e3[0])) for e3 in want)
+                        if ok:
+                            continue
+                    ok = any(all(close(g, e) for g, e in zip(got, e3)) for e3 in want)
                     if not ok:
                         # classify
                         if any(close(got[0], e3[0]) for e3 in exp[r]):
@@ -130,8 +169,10 @@ def run_case(case):
                         else:
                             sig = 'wrong-range' if sw == 0 else 'evaluation-order-dependence'
                         V(sig, '%s, ranges listed %r, r=%r (sweep %d): (value, deriv, deriv2) = %r, allowed %r'
-                          % (how, [(m, s) for m, s, _q in order], r, sw, got, exp[r]))
+                          % (how, [(m, s) for m, s, _q in order], r, sw, got, want))
                         break
+                    if how.startswith('class default') or 'numerical' in how:
+                        continue
                     key = r
                     if key in first_obs:
                         if not all(close(g, e) for g, e in zip(got, first_obs[key][0])):
